@@ -994,3 +994,49 @@ Theorem user_feature_gets_params obj bst (builtin : list N -> obj -> bst -> bst)
   snd (call_user_feature obj bst builtin hb true m p s)
   = (if hb then [CBuiltin m p] else []) ++ [CUser m p].
 Proof. unfold call_user_feature. destruct hb; reflexivity. Qed.
+
+(* ================= streams: what preceded a frame does not matter ================= *)
+Section Stream.
+  Variable obj : Type.
+  Variable structure : list N -> pval -> sres obj.
+  Variable reg : list mrow.
+
+  Lemma receive_stream_app st a b :
+    receive_stream obj structure reg st (a ++ b)
+    = receive_stream obj structure reg st a
+      ++ receive_stream obj structure reg (state_after obj structure reg st a) b.
+  Proof.
+    revert st. induction a as [|f a IH]; intro st; cbn [app receive_stream state_after]; [reflexivity|].
+    destruct f as [j|].
+    - destruct (receive obj structure reg st j) as [st' o] eqn:E. cbn [fst app]. rewrite IH. reflexivity.
+    - cbn [app]. rewrite IH. reflexivity.
+  Qed.
+  Lemma receive_stream_length st a :
+    length (receive_stream obj structure reg st a) = length a.
+  Proof.
+    revert st. induction a as [|f a IH]; intro st; cbn [receive_stream length]; [reflexivity|].
+    destruct f as [j|]; [destruct (receive obj structure reg st j)|]; cbn [length]; rewrite IH; reflexivity.
+  Qed.
+
+  (* A well-formed typed request / notification is delivered with the converter's object at its
+     place in the stream, whatever frames - good, rejected or undecodable - came before it. *)
+  Theorem stream_frame_delivered st pre post kvs data m r o :
+    nested_jsonrpc (JObj kvs) = false ->
+    embed (JObj kvs) = PDict data ->
+    aget k_jsonrpc data = Some (PStr s_version) -> amem k_error data = false ->
+    aget k_method data = Some (PStr m) -> find_method reg m = Some r ->
+    m_request r = amem k_id data ->
+    structure (m_msg_type r) (embed (JObj kvs)) = SOk o ->
+    nth_error (receive_stream obj structure reg st (pre ++ FJson (JObj kvs) :: post)) (length pre)
+    = Some (if m_request r
+            then ORequest (match aget k_id data with Some i => i | None => PNull end)
+                          (MTyped (TRegistryMsg r) o)
+            else ONotification (MTyped (TRegistryMsg r) o)).
+  Proof.
+    intros Hn He Hv Herr Hm Hf Hc Hs. rewrite receive_stream_app.
+    rewrite nth_error_app2 by (rewrite receive_stream_length; apply Nat.le_refl).
+    rewrite receive_stream_length, Nat.sub_diag. cbn [receive_stream].
+    rewrite (handler_gets_structure obj structure reg _ kvs data m r o Hn He Hv Herr Hm Hf Hc Hs).
+    reflexivity.
+  Qed.
+End Stream.
